@@ -4,6 +4,7 @@
 From Coq Require Import ZArith List Bool Lia.
 Import ListNotations.
 From XO Require Import Types KArg KArgProofs.
+From XO Require Import PtrArith.
 Open Scope Z_scope.
 
 Theorem C17_obj_at_current_location : forall cs cls buf off c,
@@ -26,6 +27,13 @@ Proof. exact wrong_number_refused. Qed.
 Theorem C17_missing_argument_refused : forall cs n a tl kw, lookup_arg n kw = None -> convert_all cs ((n, a) :: tl) kw = None.
 Proof. exact missing_argument_refused. Qed.
 
+(* the delivered pointer is a BYTE address: typed pointer arithmetic with a floor division reaches the element only
+   at offsets that are multiples of the item size, and CPU buffers pack objects at any offset *)
+Theorem C17_typed_pointer_exact_iff : forall base isz off, 0 < isz ->
+  (typed_ptr_add base isz (off / isz) = base + off <-> off mod isz = 0).
+Proof. exact typed_pointer_exact_iff. Qed.
+Theorem C17_byte_pointer_exact : forall base off, typed_ptr_add base 1 off = base + off.
+Proof. exact byte_pointer_exact. Qed.
 Print Assumptions C17_obj_at_current_location.
 Print Assumptions C17_obj_of_other_class_refused.
 Print Assumptions C17_ndarray_first_element.
@@ -35,3 +43,5 @@ Print Assumptions C17_scalar_bits_unchanged.
 Print Assumptions C17_positional_refused.
 Print Assumptions C17_wrong_number_refused.
 Print Assumptions C17_missing_argument_refused.
+Print Assumptions C17_typed_pointer_exact_iff.
+Print Assumptions C17_byte_pointer_exact.
